@@ -114,6 +114,22 @@ package cluster
 //@   assumed
 //@   ensures isCopyOf(result, v)
 //@   modifies nothing
+// what IS verified of copy (secondary contract, checked against the body): when the collecting loop
+// ends, the slice holds every entry of the view - leaderless ones included: their membership must
+// travel too - and nothing else; the shuffle that follows is assumed to permute it
+//@ import rand "math/rand"
+//@ func rand.Shuffle
+//@   assumed
+//@   params n, swap
+//@   modifies allelems(registry.ShardView)
+//@ func (*shardView).copy#collect
+//@   requires v != nil
+//@   modifies nothing
+//@   loop 0 invariant fresh(ci)
+//@   loop 0 invariant forall i int :: 0 <= i && i < len(ci) ==> exists id uint64 :: has(v0.shards, id) && ci[i] == v0.shards[id]
+//@   loop 0 invariant forall id uint64 :: rangeSeen(0, id) ==> has(v0.shards, id) && exists i int :: 0 <= i && i < len(ci) && ci[i] == v0.shards[id]
+//@   loop 0 exit [C19.copy.all] forall id uint64 :: has(v0.shards, id) ==> exists i int :: 0 <= i && i < len(ci) && ci[i] == v0.shards[id]
+//@   loop 0 exit [C19.copy.only] forall i int :: 0 <= i && i < len(ci) ==> exists id uint64 :: has(v0.shards, id) && ci[i] == v0.shards[id]
 // the adapter from the local raft report to view updates copies shard, membership index, leader and term field by field
 //@ func toShardViewList
 //@   ensures [C19.adapter] len(result) == len(input) && forall j int :: 0 <= j && j < len(input) ==> result[j].ShardID == input[j].ShardID && result[j].ConfigChangeIndex == input[j].ConfigChangeIndex && result[j].LeaderID == input[j].LeaderID && result[j].Term == input[j].Term && result[j].Replicas == input[j].Replicas
@@ -139,6 +155,7 @@ package cluster
 //@   requires c != nil && c.shardView != nil && c.shardView.shards != nil
 //@   requires [ok] forall id uint64 :: entryOK(entryOf(c.shardView, id)) && entryOf(c.shardView, id).ShardID == id
 //@   before (*shardView).update assert [C19.gossip.merge] v == c.shardView && sameSlice(updates, remote.ShardView)
+//@   ensures [C19.gossip.always] c.shardView.nupd == old(c.shardView.nupd) + 1      // every exchange is merged - the periodic push/pull as well as the one at join
 //@   modifies elems(c.shardView.shards), c.shardView.nupd
 
 // ShardInfo answers from the merged view
@@ -161,3 +178,36 @@ package cluster
 //@   before (*shardView).update assert [C19.notify.fold] v == c.shardView
 //@   ensures [C19.notify.always] c.shardView.nupd == old(c.shardView.nupd) + 1
 //@   modifies elems(c.shardView.shards), c.shardView.nupd, family(CH_len)
+
+// ---------------------------------------------------------------- the refresh loop (C19)
+
+// notify: every refresh signal makes the node push its state to the peers once (UpdateNode ->
+// LocalState -> the merged view, above); the loop ends only with the cluster. Start starts it.
+//@ ghostfield any.npush Int
+//@ ghostfield any.nnotify Int
+//@ func memberlist.(*Memberlist).UpdateNode
+//@   assumed
+//@   params ml, timeout
+//@   ensures ml.npush == old(ml.npush) + 1
+//@   modifies ml.npush
+//@ func (*Cluster).notify
+//@   maypanic
+//@   requires c != nil && c.ml != nil && c.log != nil && allocated(c.stop) && allocated(c.not) && c.not != c.stop
+//@   before memberlist.(*Memberlist).UpdateNode assert [C19.notify.signal] world.lastSel == c.not
+//@   modifies family(CH_len), c.ml.npush
+//@   loop 0 invariant c.ml == old(c.ml) && c.ml != nil && c.log != nil && c.stop == old(c.stop) && c.not == old(c.not)
+//@   loop 0 step [C19.notify.push] c.ml.npush == prev(c.ml.npush) + 1
+//@   loop 0 leave [C19.notify.alive] world.lastSel == c.stop
+//@ spawn (*Cluster).notify
+//@   params c
+//@   ensures c.nnotify == old(c.nnotify) + 1
+//@   modifies c.nnotify
+// (discoverMembers - DNS resolution of the configured seeds - is ASSUMED to leave the cluster's state alone)
+//@ func (*Cluster).discoverMembers
+//@   assumed
+//@   modifies nothing
+//@ func (*Cluster).Start
+//@   maypanic
+//@   requires c != nil && c.ml != nil && c.log != nil && allocated(c.stop) && allocated(c.not) && c.not != c.stop
+//@   ensures [C19.start.notify] c.nnotify == old(c.nnotify) + 1
+//@   modifies c.nnotify
